@@ -242,5 +242,26 @@ fn main() {
             }
         });
     }
+    // maps that `check_suspicion` flags (two objects more than a day apart; more than 100 objects inside one second) are
+    // still maps: every conversion / dispatch entry point must treat them alike
+    {
+        let o = |gap: u32| vh::gen::Obj { kind: vh::gen::Kind::Circle, gap, pos: vh::gen::PosK::Far, sound: 0, col: 0 };
+        let specs = [
+            vh::gen::MapSpec::new(0, vec![o(0), o(150), o(90_000_000)]),
+            vh::gen::MapSpec { stream: (120, 5), ..vh::gen::MapSpec::new(0, vec![o(0)]) },
+        ];
+        let one = [Difficulty::new()];
+        ctx.universe("suspicious-maps/far-apart-and-dense", (specs.len() * 4) as u64, |idx, l| {
+            let spec = &specs[idx as usize / 4];
+            let target = (idx % 4) as u8;
+            let map = spec.decode();
+            l.states(1);
+            if map.check_suspicion().is_err() {
+                l.nontrivial();
+            }
+            let desc = || format!("spec={}", spec.describe());
+            check(l, &map, target, &ModSpec::Bits(0), &one, &desc);
+        });
+    }
     ctx.finish();
 }
